@@ -578,13 +578,19 @@ fn fold_constraint_set(
             range_constraint,
         )
     };
-    fold_by_precedence(
+    let mut folded = fold_by_precedence(
         set,
         // an element on its own folds like the base of `element EXCEPT ..`
         |element| fold(element.clone(), SetOperator::Except, element.clone()),
         |base, operant| fold(base, SetOperator::Intersection, operant),
         |base, operant| fold(base, SetOperator::Union, operant),
-    )
+    )?;
+    // an extension marker is parsed with the last element of the set: it marks the set as a whole,
+    // also when that element follows an EXCEPT and is left out of the fold
+    if let (Some(folded), true) = (folded.as_mut(), set.carries_extension_marker()) {
+        folded.mark_extensible();
+    }
+    Ok(folded)
 }
 
 /// The parser delivers `a op b op c ..` as the chain `a op (b op (c ..))` whatever the operators are.
